@@ -2,6 +2,7 @@ package main
 
 import (
 	"go/token"
+	"go/types"
 
 	"golang.org/x/tools/go/ssa"
 )
@@ -380,7 +381,7 @@ func init() {
 	finders := map[string]bool{"(*disjoint.Set).Find": true, "(*disjoint.Set).FindBuffered": true}
 	register(&propDef{
 		id:          "C18",
-		explanation: "Decides two representation-level necessary conditions of the parent-forest encoding (negative entry = root): ROOTLINK (in Union and UnionBuffered every store into the set indexes a value returned by Find/FindBuffered in that call, i.e. a root, and stores either the other root (link) or that root's own entry minus one (rank bump), never a rank bump of a root already linked away), COMPRESS (in Find and FindBuffered every store into the set writes exactly the value the function goes on to return, so a lookup can only re-point an element at the root of its own tree), plus READONLY for Roots, WRITE-SCOPE (the buffered variants write only the set and buf) and FIXEDARRAY (no fixed-size scratch array is indexed by a path-length counter that is not proved in range: union by rank bounds the height only while every union keeps the ranks). Does not decide the partition itself.",
+		explanation: "Decides two representation-level necessary conditions of the parent-forest encoding (negative entry = root): ROOTLINK (in Union and UnionBuffered every store into the set indexes a value returned by Find/FindBuffered in that call, i.e. a root, and stores either the other root (link) or that root's own entry minus one (rank bump), never a rank bump of a root already linked away), COMPRESS (in Find and FindBuffered every store into the set writes exactly the value the function goes on to return, so a lookup can only re-point an element at the root of its own tree), plus READONLY for Roots, WRITE-SCOPE (the buffered variants write only the set and buf) and FIXEDARRAY (no fixed-size scratch array is indexed by a path-length counter that is not proved in range: union by rank bounds the height only while every union keeps the ranks) and BUFCAP (no exported function reslices a caller's scratch buffer to a constant positive length without proving the buffer that long: any buffer, nil included, is a legal argument of the buffered variants). Does not decide the partition itself.",
 		notDecided:  []string{"that two elements have the same representative exactly when connected by the unions so far", "Sets / SmallestRep / Roots describe that partition", "other compression schemes than compress-to-root and path halving (e.g. path splitting written differently) would be reported"},
 		assumptions: []string{"Find returns a root (value-level; not decided)"},
 		run: func(c *Ctx, tier string) []*RuleResult {
@@ -399,7 +400,9 @@ func init() {
 				fn := c.Fn(n)
 				onlyWrites(c, ws, fn, []int{0, paramIndex(fn, "buf")}, "the set and buf")
 			}
-			return []*RuleResult{rl, cp, ws, ruleFixedArray(c, "disjoint")}
+			bc := ruleBufCap(c, "disjoint")
+			bc.MinInst = 1
+			return []*RuleResult{rl, cp, ws, ruleFixedArray(c, "disjoint"), bc}
 		},
 		controls: func(ctl *Ctx) []*RuleResult {
 			f := map[string]bool{"(*dsctl.Set).Find": true}
@@ -423,7 +426,7 @@ func init() {
 				f.Key += " (Good)"
 				cp.Findings = append(cp.Findings, f)
 			}
-			return append(out, cp)
+			return append(out, cp, ruleBufCap(ctl, "dsctl"))
 		},
 	})
 }
@@ -455,4 +458,66 @@ func isGrandparentStore(c *Ctx, fn *ssa.Function, s setStore) bool {
 	}
 	b := s.st.Block()
 	return P.Prove(P.poly(pl).scale(-1), b) && P.Prove(P.poly(gl).scale(-1), b)
+}
+
+// ruleBufCap: a slice expression p[:k] (or p[k:]) with a constant k > 0 applied directly to a slice
+// parameter panics when the caller's slice is shorter (for the high bound: has less capacity) than k.
+// Nothing bounds a caller-supplied buffer unless the code checks it, so k <= len(p) must be proved
+// under the guards that dominate the expression; append(p[:0], ...) needs no such proof. Exported
+// functions only: an unexported helper is called with the module's own buffers.
+func ruleBufCap(c *Ctx, pkgRel string) *RuleResult {
+	r := &RuleResult{Rule: "BUFCAP", Doc: "no slice parameter is resliced to a constant positive bound without a proof that it is that long (a nil or empty scratch buffer is a legal argument)", MinInst: 0}
+	n := 0
+	for _, fn := range c.Funcs {
+		p := fnPkg(fn)
+		if p == nil || p.Pkg.Path() != c.Mod+"/"+pkgRel || fn.Synthetic != "" || fn.Blocks == nil {
+			continue
+		}
+		if o := fn.Object(); o == nil || !o.Exported() {
+			continue // an unexported helper is called with the module's own buffers
+		}
+		n++
+		isParam := map[ssa.Value]bool{}
+		for _, q := range fn.Params {
+			if _, ok := q.Type().Underlying().(*types.Slice); ok {
+				isParam[q] = true
+			}
+		}
+		var P *Prover
+		for _, b := range fn.Blocks {
+			for _, in := range b.Instrs {
+				sl, ok := in.(*ssa.Slice)
+				if !ok || !isParam[sl.X] {
+					continue
+				}
+				var k int64
+				for _, bound := range []ssa.Value{sl.Low, sl.High, sl.Max} {
+					if bound == nil {
+						continue
+					}
+					if v, isK := constInt(bound); isK && v > k {
+						k = v
+					}
+				}
+				if k <= 0 {
+					continue
+				}
+				if P == nil {
+					P = NewProver(c, fn)
+				}
+				src := c.srcAt(sl.Pos())
+				if src == "" {
+					src = valName(sl)
+				}
+				r.inst("%s: %s", c.short(fn), src)
+				ok2 := P.Prove(constP(k).add(P.lenOf(sl.X), -1), b)
+				r.oblig(ok2)
+				if !ok2 {
+					r.find(c.short(fn)+":"+src+" caller buffer may be shorter", c.instrPos(sl), "%s: %s reslices the caller's %s to %d element(s) without a proof that it is that long: a nil or empty buffer panics", c.short(fn), src, sl.X.Name(), k)
+				}
+			}
+		}
+	}
+	r.inst("%d exported functions of package %s scanned for constant reslices of slice parameters", n, pkgRel)
+	return r
 }
